@@ -97,10 +97,11 @@ Example C21_nonvacuous :
   /\ stats_run [(1, 4, 3); (0, 0, 2); (1, 2, 0); (0, 4, 1)] = [4; 1; 1; 0; 1; 0; 2; 1; 0; 0; 1].
 Proof. split; [eexists; split; [vm_compute; reflexivity|split; reflexivity]|vm_compute; reflexivity]. Qed.
 
-(* census, regenerated from the sources on every run: `handle` registers in both arms of the serialisation
-   match, the daemon has eleven counters and one call of Server::handle. *)
+(* census, regenerated from the sources on every run: the handler has one registration call per modelled exit
+   (6 early exits of handle_inner + both arms of the serialisation match in `handle`), the daemon has eleven
+   counters and one call of Server::handle. *)
 Example C21_site_census :
-  SRV_HANDLE_REGISTER_CALLS = 2 /\ DAEMON_STATS_COUNTERS = 11 /\ DAEMON_HANDLE_CALLS = 1.
+  SRV_REGISTER_CALLS = 8 /\ SRV_HANDLE_REGISTER_CALLS = 2 /\ DAEMON_STATS_COUNTERS = 11 /\ DAEMON_HANDLE_CALLS = 1.
 Proof. repeat split; reflexivity. Qed.
 
 Print Assumptions C21_exactly_one.
